@@ -4,7 +4,7 @@
     classes and the XSD facets, all re-extracted from /repo on this run. *)
 From V.lib Require Import Prelude PyFloat PyVal.
 From V.model Require Import SimpleTypeLib.
-From V.proofs Require Import PyFloat_proofs SimpleTypeLib_proofs C11_instance C11_float_instance C11_write_instance.
+From V.proofs Require Import PyFloat_proofs SimpleTypeLib_proofs C11_instance C11_float_instance C11_write_instance C11_rows_custom.
 From V.gen Require Import GenC11.
 
 Theorem C11_write_ok_sound : forall d t, write_ok d t = true ->
@@ -144,6 +144,22 @@ Theorem C11_float_validate_total : forall v,
   end.
 Proof. exact fvalidate_spec. Qed.
 Print Assumptions C11_float_validate_total.
+
+(** W for the float- and unit-valued classes, per ATTRIBUTE ROW: the class-level range theorems
+    above are lifted to every row whose writer is that class (gen: rows_classes_ok), against the
+    facet of the row's own schema type *)
+Theorem C11_W_custom_rows : forall r c, In (r, c) (combine rows row_classes) -> w_custom_verdict r c = 0%N ->
+  forall v s, ar_to_xml r v = Ok (PStr s) -> lex_ok (ar_lex r) s = true.
+Proof. exact W_rows_custom. Qed.
+Print Assumptions C11_W_custom_rows.
+
+(** INSTANCE: no row of such a class has a facet narrower than what the class can write *)
+Theorem C11_no_custom_write_failures : forallb (fun p => negb (N.eqb (snd p) 1)) custom_verdicts = true.
+Proof. exact no_custom_write_failures. Qed.
+Print Assumptions C11_no_custom_write_failures.
+
+Example C11_ex_custom_rows : (0 < length (filter (fun p => N.eqb (snd p) 0) custom_verdicts))%nat.
+Proof. exact custom_rows_judged. Qed.
 
 (** non-vacuity *)
 Example C11_ex_rows : (0 < length (filter (fun r => N.eqb (w_verdict r) 0) rows))%nat
